@@ -247,6 +247,47 @@ theorem mem_allCells (cells : List Block) (c : String × List Nat) (h : c ∈ al
   subst e
   exact ⟨b, hb, rfl, hr⟩
 
+theorem typedBlocks_eq (F : WFields) (hF : Facts F) : typedBlocks F = some (sortByIdx (keyed ixOf F.cells)) := by
+  unfold typedBlocks keyed
+  rw [mapM'_eq_some_map _ (fun b => (ixOf b.1, b.1, b.2))]
+  · rfl
+  · intro b hb
+    rw [cellTypeIndex_ixOf b.1 (hF.cidx b (List.mem_filter.mp hb).1)]; rfl
+
+/-- the cells `normalise` lists: the non-empty blocks of the mesh, in strictly ascending order of their type ids -/
+theorem normalise_cells (F : WFields) (hF : Facts F) (R : RFields) (hR : normalise F = some R) :
+    (∀ b, b ∈ R.cells ↔ (b ∈ F.cells ∧ b.2 ≠ [])) ∧ (R.cells.map fun b => ixOf b.1).Pairwise (· < ·) := by
+  have hc : R.cells = (sortByIdx (keyed ixOf F.cells)).map fun sb => (sb.2.1, sb.2.2) := by
+    unfold normalise at hR
+    rw [typedBlocks_eq F hF] at hR
+    simp only at hR
+    split at hR
+    · cases hR
+    · cases hR; rfl
+  rw [hc]
+  constructor
+  · intro b
+    simp only [List.mem_map]
+    constructor
+    · rintro ⟨sb, hsb, e⟩
+      obtain ⟨b', hb', hne, e2⟩ := (mem_keyed ixOf F.cells sb).mp ((mem_sortByIdx _ sb).mp hsb)
+      subst e2; subst e
+      exact ⟨hb', hne⟩
+    · rintro ⟨hb, hne⟩
+      exact ⟨(ixOf b.1, b.1, b.2), (mem_sortByIdx _ _).mpr ((mem_keyed ixOf F.cells _).mpr ⟨b, hb, hne, rfl⟩), rfl⟩
+  · have hs := sortByIdx_strict (keyed ixOf F.cells) (by
+      unfold keyed
+      rw [List.map_map]
+      exact List.Pairwise.sublist (List.Sublist.map _ List.filter_sublist) (ids_distinct F hF))
+    rw [List.map_map]
+    have : (sortByIdx (keyed ixOf F.cells)).map ((fun b : Block => ixOf b.1) ∘ fun sb => (sb.2.1, sb.2.2))
+        = (sortByIdx (keyed ixOf F.cells)).map (·.1) := by
+      apply List.map_congr_left
+      intro sb hsb
+      obtain ⟨b', _, _, e2⟩ := (mem_keyed ixOf F.cells sb).mp ((mem_sortByIdx _ sb).mp hsb)
+      subst e2; rfl
+    rw [this]; exact hs
+
 /-! ### the composition -/
 
 /-- **file-level round trip.**  Under `Spec.hyp` (form of the data) and `Spec.sizeOk` (no array of 2^61 scalars)
@@ -347,12 +388,7 @@ theorem vtu_roundtrip (F : WFields) (h : Spec.hyp F = true) (hs : Spec.sizeOk F 
   obtain ⟨etypes, d3, hetypes, hrtypes⟩ := cellsArray_ok (!(allCells F.cells).isEmpty) "types" "int64" _ htypesOk (by
     intro he; unfold typesOf; exact hemptyM _ he)
   -- the spec
-  have htyped : typedBlocks F = some (sortByIdx (keyed ixOf F.cells)) := by
-    unfold typedBlocks keyed
-    rw [mapM'_eq_some_map _ (fun b => (ixOf b.1, b.1, b.2))]
-    · rfl
-    · intro b hb
-      rw [cellTypeIndex_ixOf b.1 (hF.cidx b (List.mem_filter.mp hb).1)]; rfl
+  have htyped := typedBlocks_eq F hF
   obtain ⟨cf, hcf, _⟩ := mapM'_forall₂ (normCellField F (sortByIdx (keyed ixOf F.cells))) (fun _ _ => True)
     (dedup (F.cf.map (·.1))) (by
       intro n hn
